@@ -484,7 +484,29 @@ def dense_shuffled(rng, A):
     return A.renamed(dict(zip(st, perm))), len(st)
 
 
+def big_unary_ta(rng):
+    """25-48 states, mostly unary rules with loops and several successors per state (so that the LTS has more than 31 / 63
+    (label, state) pairs with successors: the engine's counters then live in several rows, some of them sparsely used)"""
+    n = rng.randint(25, 48)
+    una = [3, 7]
+    rules = [(rng.choice([0, 1]), (), q) for q in range(n) if rng.random() < 0.25]
+    for q in range(n):
+        if rng.random() < 0.6:
+            rules.append((rng.choice(una), (q,), q))                        # loop
+        for _ in range(rng.choice([0, 1, 1, 2, 3])):
+            rules.append((rng.choice(una), (rng.randrange(n),), q))
+    if rng.random() < 0.4:
+        rules.append((4, (rng.randrange(n), rng.randrange(n)), rng.randrange(n)))
+    if not any(len(ks) == 0 for (_, ks, _) in rules):
+        rules.append((0, (), rng.randrange(n)))
+    finals = sorted({rng.randrange(n) for _ in range(rng.randint(1, 3))})
+    return TA(rules, finals)
+
+
 def g_simdown(rng):
+    if rng.random() < 0.06:
+        A, n = dense_shuffled(rng, big_unary_ta(rng))
+        return f"simdown {A.tok()} {n}"
     A = rand_ta(rng, nmax=5, dense=True, dials=dict(norule_state=0.2, dead_child=0.3))
     A, n = dense_shuffled(rng, A)
     return f"simdown {A.tok()} {n}"
